@@ -3,6 +3,7 @@
 import base64
 import binascii
 import datetime
+import decimal
 import re
 
 from .utils import parse_into_datetime
@@ -79,7 +80,14 @@ class FloatConstant(_Constant):
             raise ValueError("must be a float.")
 
     def __str__(self):
-        return "%s" % self.value
+        # The pattern grammar has no exponent notation, and requires a
+        # fractional part.
+        text = repr(self.value)
+        if "e" in text or "E" in text:
+            text = format(decimal.Decimal(text), "f")
+        if "." not in text and text.lstrip("-").isdigit():
+            text += ".0"
+        return text
 
 
 class BooleanConstant(_Constant):
